@@ -765,7 +765,7 @@ def correspondence(ctx):
                                                 class_liveness=len(cases) % 8 == 0)
                 cases.append((done, snaps, errs, tag, n, kinds))
             return emit
-        d1, d2 = ctx.budget((5, 5), (7, 6))
+        d1, d2 = ctx.budget((5, 5), (6, 6))
         n1, full1 = exhaustive(1, d1, ALPHABET_1, emit_for(1, "exhaustive-1obj"), t0 + ctx.budget(30, 400))
         n2, full2 = exhaustive(2, d2, ALPHABET_2, emit_for(2, "exhaustive-2obj"), time.time() + ctx.budget(30, 200))
         c.extra["exhaustive_1obj"] = dict(depth=d1, histories=n1, complete=full1)
